@@ -41,6 +41,41 @@ def rebuild_with_constructor(sp, children, kw):
     return None
 
 
+def functional_forms(res, case, sp, ch):
+    """the treespec_* functions are the methods: same value, same exception type, on every index in [-n-1, n]"""
+    def same(a, b):
+        return a[0] == b[0] and (a[1] == b[1] if a[0] == 0 else a[1:] == b[1:])
+    n = sp.num_children
+    for i in range(-n - 1, n + 1):
+        if not same(attempt(lambda: optree.treespec_child(sp, i)), attempt(lambda: sp.child(i))):
+            res.fail('treespec_child differs from PyTreeSpec.child', case, i)
+        if not same(attempt(lambda: optree.treespec_entry(sp, i)), attempt(lambda: sp.entry(i))):
+            res.fail('treespec_entry differs from PyTreeSpec.entry', case, i)
+    pairs = [
+        ('treespec_children', lambda: optree.treespec_children(sp), lambda: sp.children()),
+        ('treespec_entries', lambda: optree.treespec_entries(sp), lambda: sp.entries()),
+        ('treespec_paths', lambda: optree.treespec_paths(sp), lambda: sp.paths()),
+        ('treespec_accessors', lambda: optree.treespec_accessors(sp), lambda: sp.accessors()),
+        ('treespec_one_level', lambda: optree.treespec_one_level(sp), lambda: sp.one_level()),
+        ('treespec_is_leaf', lambda: optree.treespec_is_leaf(sp), lambda: sp.is_leaf()),
+        ('treespec_is_leaf(strict=False)', lambda: optree.treespec_is_leaf(sp, strict=False), lambda: sp.is_leaf(strict=False)),
+        ('treespec_is_strict_leaf', lambda: optree.treespec_is_strict_leaf(sp), lambda: sp.is_leaf(strict=True)),
+        ('treespec_is_one_level', lambda: optree.treespec_is_one_level(sp), lambda: sp.is_one_level()),
+        ('treespec_transform', lambda: optree.treespec_transform(sp, lambda s: s, lambda s: s), lambda: sp.transform(lambda s: s, lambda s: s)),
+        ('treespec_transform(None, f_leaf)', lambda: optree.treespec_transform(sp, None, lambda s: optree.treespec_tuple([s, s], none_is_leaf=sp.none_is_leaf)),
+         lambda: sp.transform(None, lambda s: optree.treespec_tuple([s, s], none_is_leaf=sp.none_is_leaf))),
+    ]
+    for name, f, g in pairs:
+        a, b = attempt(f), attempt(g)
+        if not same(a, b):
+            res.fail(f'{name} differs from the PyTreeSpec method', case, f'{str(a)[:150]} vs {str(b)[:150]}')
+    # strict leaf = the treespec of a single leaf; non-strict also None / empty containers (no children, no leaves... or one leaf)
+    if sp.is_leaf() != (sp.num_nodes == 1 and sp.num_leaves == 1):
+        res.fail('is_leaf(strict=True) is not "one node, one leaf"', case)
+    if sp.is_leaf(strict=False) != (sp.num_nodes == 1):
+        res.fail('is_leaf(strict=False) is not "one node"', case)
+
+
 def oracle_inspect(res, cfg, o, rng):
     case = (2, cfg, o)
     with World(cfg) as w:
@@ -84,6 +119,7 @@ def oracle_inspect(res, cfg, o, rng):
                 res.fail('is_one_level does not say whether all children are leaves', case)
         elif sp.is_one_level():
             res.fail('is_one_level is true for a leaf', case)
+        functional_forms(res, case, sp, ch)
         if len(sp) != sp.num_leaves:
             res.fail('len(treespec) differs from num_leaves', case)
         if sp.transform() != sp or sp.transform(lambda s: s, lambda s: s) != sp:
